@@ -1,7 +1,7 @@
 (* C15 - trigonometric gateways.  Pinned theorems only. *)
 From Coq Require Import ZArith List Bool Reals Lra.
 From Flocq Require Import Core BinarySingleNaN.
-Require Import GV.FloatBase GV.FloatLemmas GV.AngleM GV.AngleProofs GV.GeonumM GV.GeonumProofs GV.TraitsM.
+Require Import GV.FloatBase GV.FloatLemmas GV.AngleM GV.AngleProofs GV.GeonumM GV.GeonumProofs GV.TraitsM GV.NewProofs GV.CtorProofs GV.PiBounds GV.TrigProofs.
 Open Scope R_scope.
 
 (* cos: |value| at blade 0 / 2; sin: |value| at blade 1 / 3; remainder exactly 0; for EVERY libm *)
@@ -25,3 +25,25 @@ Theorem C15_adj_opp : forall (L : libm) g,
   adj L g = gscale (gcos L (ang g)) (mag g) /\ opp L g = gscale (gsin L (ang g)) (mag g).
 Proof. exact adj_opp_def. Qed.
 Print Assumptions C15_adj_opp.
+
+(* numeric values, with the REAL pi: dir a = (blade mod 4) * pi/2 + rem.  Under the accuracy hypothesis
+   "libm cos (sin) is within u of the real function on [-8, 8]" the signed value carried by Geonum::cos
+   (Geonum::sin) is within u + 2.5e-15 of cos (sin) of the direction; sign in the half turn, remainder 0 *)
+Theorem C15_cos_value : forall (L : libm) (u : R) a, cos_acc L u -> canonp (rem a) ->
+  let v := cosF L (grade_angle a) in
+  fin v /\ Rabs (R_ v - cos (dir a)) <= u + 25 / 10000000000000000 /\
+  gcos L a = {| mag := fabs v; ang := {| rem := zero; blade := if Rlt_bool (R_ v) 0 then 2 else 0 |} |}.
+Proof. exact gcos_value. Qed.
+Print Assumptions C15_cos_value.
+
+Theorem C15_sin_value : forall (L : libm) (u : R) a, sin_acc L u -> canonp (rem a) ->
+  let v := sinF L (grade_angle a) in
+  fin v /\ Rabs (R_ v - sin (dir a)) <= u + 25 / 10000000000000000 /\
+  gsin L a = {| mag := fabs v; ang := {| rem := zero; blade := if Rlt_bool (R_ v) 0 then 3 else 1 |} |}.
+Proof. exact gsin_value. Qed.
+Print Assumptions C15_sin_value.
+
+(* the accuracy hypotheses are satisfiable with u = 2^-52 (correctly rounded real cosine / sine) *)
+Theorem C15_acc_inhabited : cos_acc ideal_libm (/ 4503599627370496) /\ sin_acc ideal_libm (/ 4503599627370496).
+Proof. exact acc_hyps_inhabited. Qed.
+Print Assumptions C15_acc_inhabited.
